@@ -128,7 +128,7 @@ func debugFunc(sub string, keep, verbose bool, timeout int) int {
 	var results []*FuncResult
 	for _, k := range ld.cs.Order {
 		c := ld.cs.Funcs[k]
-		if c.Assumed || c.Iface || !strings.Contains(k, sub) {
+		if c.Assumed || c.Iface || (c.Inline && len(c.Ensures) == 0) || !strings.Contains(k, sub) {
 			continue
 		}
 		if len(ld.fnByKey[k]) == 0 {
